@@ -12,13 +12,13 @@ import (
 const (
 	c04Ops    = 7 // media multipart resumable patch delete composeDst composeSrc
 	c04States = 3 // absent, (g,1), (g,m>1)
-	c04Conds  = 5 * 4 * 4 * 4
+	c04Conds  = 5 * 5 * 5 * 5
 )
 
 func init() {
 	register(&PropDef{
 		ID: "C04", Level: "exploration", Quick: 6000, Thorough: 20000, QuickCap: 100,
-		Rule:   "the finite truth table {ifGenerationMatch: unset/0/current/other/junk} x {ifGenerationNotMatch, ifMetagenerationMatch, ifMetagenerationNotMatch: unset/current/other/junk} x object state {absent, (g,1), (g,m>1)} x operation {media, multipart, resumable upload, patch, delete, compose destination, compose per-source generation} x store = 13440 items is visited by a seeded permutation, 9 items per run on fresh object names of one world (the thorough tier consumes it completely), followed by the same draws inside random histories including a resumable upload whose object is changed by another request between initiation and completion; after every request the response is compared with the truth table and, on every non-2xx, all objects are read back and must be unchanged; distinct = hash of (store, items, shapes); non-trivial = at least one failing precondition in the run",
+		Rule:   "the finite truth table {ifGenerationMatch: unset/0/current/other/junk} x {ifGenerationNotMatch, ifMetagenerationMatch, ifMetagenerationNotMatch: unset/current/other/junk/0} x object state {absent, (g,1), (g,m>1)} x operation {media, multipart, resumable upload, patch, delete, compose destination, compose per-source generation} x store = 26250 items is visited by a seeded permutation, 9 items per run on fresh object names of one world (the thorough tier consumes it completely), followed by the same draws inside random histories including a resumable upload whose object is changed by another request between initiation and completion; after every request the response is compared with the truth table and, on every non-2xx, all objects are read back and must be unchanged; distinct = hash of (store, items, shapes); non-trivial = at least one failing precondition in the run",
 		Real:   []string{"gcsemu parseConds, validateConds, finishUpload, handleGcsDelete, handleGcsUpdateMetadataRequest, handleGcsCompose/finishCompose, both stores"},
 		Stub:   []string{"HTTP connections (recorder)", "wall clock (simulator-owned, strictly increasing)"},
 		Assume: []string{"ifGenerationNotMatch / ifMetagenerationMatch / ifMetagenerationNotMatch are never sent with the value 0 (unspecified)", "for an absent object a failing request may answer 412, or 304 when a not-match condition was supplied; delete/patch of an absent object may also answer 404"},
@@ -56,14 +56,16 @@ func condsFromIndex(ci int, cur *gObj) gConds {
 			return ip(cur + 5)
 		case 3:
 			return sp(junk)
+		case 4:
+			return ip(0) // supplied, with the value 0: a condition like any other
 		}
 		return nil
 	}
-	c.GenNotMatch = pick(ci%4, g, "1e3")
-	ci /= 4
-	c.MetaMatch = pick(ci%4, mg, "one")
-	ci /= 4
-	c.MetaNotMatch = pick(ci%4, mg, "0x1")
+	c.GenNotMatch = pick(ci%5, g, "1e3")
+	ci /= 5
+	c.MetaMatch = pick(ci%5, mg, "one")
+	ci /= 5
+	c.MetaNotMatch = pick(ci%5, mg, "0x1")
 	return c
 }
 
